@@ -179,6 +179,13 @@ def replay(case):
     from phyclone.process_trace.map import get_map_node_ccfs_and_clonal_prev_dicts
     forest = Forest([tuple(b) for b in case["blocks"]], [None if p is None else int(p) for p in case["parent"]])
     G, D = case["G"], case["D"]
+    # as in the exploration (and as when a summary command walks a trace) the same forest is evaluated more than once in one
+    # process with other data first
+    warm = forest.to_tree([float_dp(i, D, G, {}) for i in range(forest.n)], (D, G))
+    try:
+        get_map_node_ccfs_and_clonal_prev_dicts(warm)
+    except Exception:  # noqa - only the call on the counterexample's data is judged
+        pass
     dps = [float_dp(i, D, G, case.get("values", {})) for i in range(forest.n)]
     tree = forest.to_tree(dps, (D, G))
     try:
